@@ -339,6 +339,7 @@ def _hist(ctx, case, rec):
         cf = ConvolvedFluxes(wavelength=2.2 * u.micron, model_names=np.array(names0), apertures=ap * u.au, flux=flux0 * u.mJy, error=flux0 * 0.1 * u.mJy)
         model = {'names': list(names0), 'flux': flux0.copy(), 'err': flux0 * 0.1}
         cf.interpolate(np.array(req) * u.au)           # a first query, so that anything remembered is populated
+        kept_results = []
         for step, op in enumerate(seq):
             sub = {'seq': seq[:step + 1]}
             try:
@@ -363,6 +364,13 @@ def _hist(ctx, case, rec):
                 break
             rec.ev()
             rec.trans()
+            # results returned earlier in this history are the caller's: later operations on the object must not change them
+            for old_r, old_c in kept_results:
+                if canon([old_r.model_names, old_r.flux, old_r.error, old_r.apertures]) != old_c:
+                    rec.violation('history|earlier-result-changed', sub, {'problem': 'a ConvolvedFluxes returned by an earlier interpolate() changed afterwards'})
+                    kept_results = []
+                    break
+            kept_results.append((r, canon([r.model_names, r.flux, r.error, r.apertures])))
             c = canon([cf.model_names, cf.flux, cf.error])
             if c not in seen:
                 seen.add(c)
